@@ -200,6 +200,10 @@ func register[C any](prop, kind string, check func(C) error) func(tb fataler, c 
 				err = fmt.Errorf("panic: %v\n%s", r, trimStack(debug.Stack()))
 			}
 		}()
+		// every case runs under a generous watchdog: a call that never returns (deadlocked stages, a lost wake-up)
+		// becomes a breadcrumb + exit 3, which the driver replays alone, instead of a wall-clock timeout of the run
+		stop := caseWatchdog(prop, kind, c)
+		defer stop()
 		return check(c)
 	}
 	replayers[key] = func(raw json.RawMessage) error {
@@ -287,6 +291,26 @@ func watchdog(d time.Duration, what string) (stop func()) {
 		fmt.Fprintf(os.Stderr, "WATCHDOG: %s did not finish within %v\n%s\n", what, d, buf[:n])
 		if envOut != "" {
 			_ = os.WriteFile(envOut+".hang", []byte(what), 0o644)
+		}
+		flushAll()
+		os.Exit(3)
+	})
+	return func() { tm.Stop() }
+}
+
+// caseWatchdog: like watchdog, but writes the running case as the breadcrumb when it fires.
+func caseWatchdog(prop, kind string, c interface{}) (stop func()) {
+	d := 4 * hangLimit()
+	if prop == "C20" {
+		d = 20 * time.Minute // dozens of goroutines under the race detector on a loaded machine
+	}
+	tm := time.AfterFunc(d, func() {
+		crumb(prop, kind, c)
+		buf := make([]byte, 1<<16)
+		n := runtime.Stack(buf, true)
+		fmt.Fprintf(os.Stderr, "WATCHDOG: a %s/%s case did not finish within %v\n%s\n", prop, kind, d, buf[:n])
+		if envOut != "" {
+			_ = os.WriteFile(envOut+".hang", []byte(prop+"/"+kind), 0o644)
 		}
 		flushAll()
 		os.Exit(3)
